@@ -63,9 +63,73 @@ FIT_TIMEOUT_S = 20       # a fit takes < 1 s; only a non-terminating loop gets h
 FIT_TIMEOUT_AFTER_FIRST_S = 3
 MAX_TIMEOUTS_PER_TYPE = 2
 _TIMEOUTS = {}
-MODES = ('plain', 'swap', 'cyclic', 'small', 'discrete', 'neardup', 'dup', 'indep', 'zero')
-MODE_W = (5, 5, 3, 4, 3, 2, 1, 2, 5)
+MODES = ('plain', 'swap', 'cyclic', 'small', 'discrete', 'neardup', 'dup', 'indep', 'zero', 'ties')
+MODE_W = (5, 5, 3, 4, 3, 2, 1, 2, 5, 6)
 TYPES = ('center', 'direct', 'regular')
+
+
+# ----------------------------------------------------------------------------- independent reference taus
+def tau_b_matrix(M):
+    """Pairwise Kendall tau-b (tie-corrected: what `Kendall's tau` of tied data means and what scipy/pandas
+    compute), straight from the data with scipy.stats.kendalltau - independent of the model's own matrix."""
+    import scipy.stats
+    M = np.asarray(M, dtype=float)
+    d = M.shape[1]
+    T = np.eye(d)
+    for i in range(d):
+        for j in range(i):
+            T[i, j] = T[j, i] = scipy.stats.kendalltau(M[:, i], M[:, j])[0]
+    return T
+
+
+def tau_a_matrix(M):
+    """Kendall tau-a (no tie correction) - only used to make sure a generated table is one on which
+    forgetting the tie correction changes the maximum spanning tree."""
+    M = np.asarray(M, dtype=float)
+    n = len(M)
+    sg = np.stack([np.sign(np.subtract.outer(c, c)).ravel() for c in M.T])
+    return sg @ sg.T / (n * (n - 1))
+
+
+def kruskal_edges(w):
+    d = w.shape[0]
+    es = sorted(((w[i, j], i, j) for i in range(d) for j in range(i)), reverse=True)
+    par = list(range(d))
+
+    def find(x):
+        while par[x] != x:
+            par[x] = par[par[x]]
+            x = par[x]
+        return x
+    out = []
+    for wt, i, j in es:
+        a, b = find(i), find(j)
+        if a != b:
+            par[a] = b
+            out.append((i, j))
+    return out
+
+
+def tie_correction_matters(M):
+    """the maximum spanning tree of |tau-a| is NOT a maximum spanning tree of |tau-b|."""
+    A, B = np.abs(tau_a_matrix(M)), np.abs(tau_b_matrix(M))
+    return sorted(B[i, j] for i, j in kruskal_edges(A)) != sorted(B[i, j] for i, j in kruskal_edges(B))
+
+
+def tied_columns(rng, rs, Z):
+    """yes/no flags, 3-5 level ratings and rounded measurements next to continuous columns."""
+    d = Z.shape[1]
+    Z = Z.copy()
+    for c in rng.sample(range(d), rng.randint(1, max(1, d - 1))):
+        kind = rng.choice(['flag', 'flag', 'rating', 'round'])
+        if kind == 'flag':
+            Z[:, c] = (Z[:, c] > np.quantile(Z[:, c], rng.choice([0.5, 0.3, 0.7]))).astype(float)
+        elif kind == 'rating':
+            lv = rng.randint(3, 5)
+            Z[:, c] = np.searchsorted(np.quantile(Z[:, c], np.linspace(0, 1, lv + 1)[1:-1]), Z[:, c]).astype(float)
+        else:
+            Z[:, c] = np.round(Z[:, c])
+    return Z
 
 
 # ----------------------------------------------------------------------------- generators
@@ -79,6 +143,18 @@ def gen_table(rng, d, mode):
     Z = rs.randn(n, d) @ L.T
     if mode == 'indep':
         Z = rs.randn(n, d)
+    elif mode == 'ties':
+        # unequal tie densities; for d >= 3 re-drawn until the tie correction changes the maximum spanning
+        # tree of the |Kendall tau| graph (tau-a MST != tau-b MST), so the case is non-trivial for the MST clause
+        base = Z
+        for _ in range(60):
+            Z = tied_columns(rng, rs, base)
+            if d < 3 or tie_correction_matters(Z):
+                break
+            A = rs.randn(d, d)
+            S = A @ A.T + 0.05 * np.eye(d)
+            s = np.sqrt(np.diag(S))
+            base = rs.randn(n, d) @ np.linalg.cholesky(S / np.outer(s, s)).T
     elif mode == 'zero':
         # Kendall tau with column 0 EXACTLY 0 (concordant = discordant), so that the key of such a column
         # in _sort_tau_by_y(0) is 0.0 and only the -10 sentinel keeps variable 0 itself last
@@ -169,22 +245,29 @@ def time_limit(seconds):
         signal.signal(signal.SIGALRM, old)
 
 
-def real_fit(X, vt, t):
-    """-> ('ok', vine, snapshots) | ('timeout', None, None) | ('exc', exception, None)"""
+def real_fit(X, vt, t, history=()):
+    """Fit ONE VineCopula object on every (table, truncated) of `history` and then on (X, t); the Tree.fit
+    snapshots are those of the LAST fit only.
+    -> ('ok', vine, snapshots) | ('timeout', None, None) | ('exc', exception, None)"""
     from copulas.multivariate.vine import VineCopula
     if _TIMEOUTS.get(vt, 0) >= MAX_TIMEOUTS_PER_TYPE:
         return 'skipped', None, None
     limit = FIT_TIMEOUT_S if not _TIMEOUTS else FIT_TIMEOUT_AFTER_FIRST_S
     try:
-        with capture_tree_fits() as log, time_limit(limit):
+        stage = 'history'
+        with time_limit(limit * (1 + len(history))):
             v = VineCopula(vt)
-            v.fit(X, truncated=t)
+            for Xh, th in history:
+                v.fit(Xh, truncated=th)
+            stage = 'last'
+            with capture_tree_fits() as log:
+                v.fit(X, truncated=t)
         return 'ok', v, log
     except FitTimeout:
         _TIMEOUTS[vt] = _TIMEOUTS.get(vt, 0) + 1
         return 'timeout', None, None
     except Exception as e:  # noqa
-        return 'exc', e, None
+        return 'exc', e, stage
 
 
 def _idx(lst, obj):
@@ -339,8 +422,65 @@ def compare_trees(model, real):
     return None
 
 
-def table_input(X, vt, t):
-    return {'columns': list(X.columns), 'rows': X.to_numpy().tolist(), 'vine_type': vt, 'truncated': int(t)}
+def table_input(X, vt, t, history=()):
+    inp = {'columns': list(X.columns), 'rows': X.to_numpy().tolist(), 'vine_type': vt, 'truncated': int(t)}
+    if history:
+        inp['fitted_before_on_the_same_object'] = [
+            {'columns': list(Xh.columns), 'rows': Xh.to_numpy().tolist(), 'truncated': int(th)} for Xh, th in history]
+    return inp
+
+
+def gen_history(rng, X, d):
+    """A table the SAME object is fitted on first: same width with another dependence ordering (the columns of X
+    permuted, or a fresh table), or a different width; with its own truncation."""
+    kind = rng.choice(['permuted', 'fresh-same-width', 'narrower', 'wider'])
+    if kind == 'permuted' and d >= 3:
+        perm = list(range(d))
+        while perm == list(range(d)):
+            rng.shuffle(perm)
+        A = pd.DataFrame(X.to_numpy()[:, perm], columns=list(X.columns))
+    elif kind == 'narrower' and d >= 3:
+        A = gen_table(rng, d - 1, rng.choice(['plain', 'discrete', 'small']))
+    elif kind == 'wider' and d <= 6:
+        A = gen_table(rng, d + 1, rng.choice(['plain', 'discrete', 'small']))
+    else:
+        kind = 'fresh-same-width'
+        A = gen_table(rng, d, rng.choice(['plain', 'swap', 'ties']))
+    return kind, [(A, rng.randint(1, A.shape[1]))]
+
+
+def tau_matrix_diff(tau_first, tau_ref):
+    """first disagreement (> 1e-12) between the matrix the first Tree.fit received and the independent tau-b."""
+    if tau_first.shape != tau_ref.shape:
+        return {'shape': tau_first.shape, 'expected': tau_ref.shape}
+    with np.errstate(all='ignore'):
+        bad = ~((np.abs(tau_first - tau_ref) <= 1e-12) | (np.isnan(tau_first) & np.isnan(tau_ref)))
+    if bad.any():
+        i, j = map(int, np.argwhere(bad)[0])
+        return {'cell': (i, j), 'model_tau_matrix': float(tau_first[i, j]), 'kendall_tau_b': float(tau_ref[i, j])}
+    return None
+
+
+def refit_vs_fresh(vt, real, log, fresh, flog):
+    """first structural difference between the state after the last fit of a re-used object and a fresh
+    object's fit on the same table.  Trees of a regular vine from index 2 on are compared only while the tau
+    matrices the two runs saw are bit-identical (uninitialised np.empty cells may steer them: C17/C19)."""
+    if len(real) != len(fresh):
+        return f'tree count refit={len(real)} fresh={len(fresh)}'
+    for k, (a, b) in enumerate(zip(real, fresh)):
+        if vt == 'regular' and k >= 2:
+            ta, tb = log[k]['tau'], flog[k]['tau']
+            if ta.shape != tb.shape or not np.array_equal(ta, tb, equal_nan=True):
+                return None
+        if len(a) != len(b):
+            return f'tree {k}: edge count refit={len(a)} fresh={len(b)}'
+        for i, (x, y) in enumerate(zip(a, b)):
+            for f in ('L', 'R', 'D', 'parents', 'fam'):
+                if x[f] != y[f]:
+                    return f'tree {k} edge {i} {f}: refit={x[f]} fresh={y[f]}'
+            if not (same_float(x['theta'], y['theta']) or abs(x['theta'] - y['theta']) <= 1e-9 * max(1, abs(y['theta']))):
+                return f'tree {k} edge {i} theta: refit={x["theta"]!r} fresh={y["theta"]!r}'
+    return None
 
 
 # ----------------------------------------------------------------------------- the tie
@@ -351,7 +491,9 @@ def run(ctx, lean):
     deep = ctx.tier == 'thorough'
     bad = {f'corr:train({vt})': None for vt in TYPES}
     bad.update({'corr:isRegularVine(real fitted vine)': None, 'corr:edge_theta_admissible': None,
-                'corr:tree_count': None, 'corr:fit-terminates': None})
+                'corr:tree_count': None, 'corr:fit-terminates': None,
+                'corr:tau_matrix = independent Kendall tau-b': None,
+                'corr:second fit on the same object = fit on a fresh object': None})
     if lean is None:
         for k in bad:
             ctx.ob(k, False, 'tie', 'driver unavailable')
@@ -366,10 +508,14 @@ def run(ctx, lean):
         mode = rng.choices(MODES, MODE_W)[0]
         if it < 8:                      # every run: exact-zero taus with column 0, d = 2..5
             d, mode = 2 + it % 4, 'zero'
+        elif it < 14:                   # every run: tie densities for which tau-a and tau-b MSTs differ
+            d, mode = 3 + it % 3, 'ties'
         X = gen_table(rng, d, mode)
-        tau0 = X.corr(method='kendall').to_numpy()
+        tau0 = tau_b_matrix(X.to_numpy())       # independent reference (scipy.stats.kendalltau, tau-b)
         if any(tau0[0, j] == 0.0 for j in range(1, d)):
             ctx.count('table with tau(col 0, col j) == 0 exactly')
+        if d >= 3 and mode in ('ties', 'discrete', 'zero', 'small') and tie_correction_matters(X.to_numpy()):
+            ctx.count('table on which the tau-a MST is not a tau-b MST')
         off = sorted(abs(tau0[i, j]) for i in range(d) for j in range(i))
         tied = any(a == b for a, b in zip(off, off[1:]))
         for vt in TYPES:
@@ -377,30 +523,48 @@ def run(ctx, lean):
             ctx.count(f'type={vt}')
             ctx.count(f'd={d}')
             ctx.count(f'mode={mode}')
-            st, v, log = real_fit(X, vt, t)
+            hist, hkind = (), None
+            if it % 4 == 1 or rng.random() < 0.2:   # refit history: the same object was fitted on another table
+                hkind, hist = gen_history(rng, X, d)
+                ctx.count(f'history: second fit on the same object, first table {hkind}')
+            st, v, log = real_fit(X, vt, t, hist)
             if st == 'skipped':
                 ctx.count(f'skipped after {MAX_TIMEOUTS_PER_TYPE} non-terminating fits: {vt}')
                 continue
             if st == 'timeout':
                 ctx.case()
-                note('corr:fit-terminates', {'mode': mode, 'type': vt, 'd': d, 't': t})
-                ctx.fail_input('VineCopula.fit', table_input(X, vt, t), 'no result within the time limit (a fit takes < 1 s)',
-                               'fit terminates', 'VineCopula.fit:does-not-terminate')
+                note('corr:fit-terminates', {'mode': mode, 'type': vt, 'd': d, 't': t, 'history': hkind})
+                ctx.fail_input('VineCopula.fit', table_input(X, vt, t, hist),
+                               'no result within the time limit (a fit takes < 1 s)', 'fit terminates',
+                               'VineCopula.fit:does-not-terminate' if not hist else 'VineCopula.refit:does-not-terminate')
                 continue
+            fresh = real_fit(X, vt, t) if hist else None
             if st == 'exc':
                 ctx.case()
                 ctx.count(f'refused:{type(v).__name__}:{str(v)[:40]}')
+                if hist and log == 'last' and fresh[0] == 'ok':
+                    note('corr:second fit on the same object = fit on a fresh object',
+                         {'type': vt, 'd': d, 't': t, 'history': hkind, 'refit_raises': f'{type(v).__name__}: {str(v)[:100]}'})
                 continue
             real = extract(v)
-            ctx.case((vt, d, t, struct_key(real), tau0.tobytes()), nontrivial=d >= 3)
+            if hist and fresh[0] == 'ok':
+                df = refit_vs_fresh(vt, real, log, extract(fresh[1]), fresh[2])
+                if df:
+                    note('corr:second fit on the same object = fit on a fresh object',
+                         {'type': vt, 'd': d, 't': t, 'history': hkind, 'first_difference': df})
+            if log:
+                df = tau_matrix_diff(log[0]['tau'], tau0)
+                if df:
+                    note('corr:tau_matrix = independent Kendall tau-b', dict(df, type=vt, d=d, mode=mode))
+            ctx.case((vt, d, t, struct_key(real), tau0.tobytes(), hkind), nontrivial=d >= 3)
             ctx.count(f't={"<d-1" if t < d - 1 else ">=d-1"}')
             if tied:
                 ctx.count('first-tree |tau| ties')
             want = max(1, min(d - 1, t))
             if len(real) != want or len(log) != len(real):
                 note('corr:tree_count', {'type': vt, 'd': d, 't': t, 'trees': len(real), 'expected': want})
-            # (i)+(ii) replay
-            m = len(real)
+            # (i)+(ii) replay (of the trees the last fit built; a count mismatch was noted above)
+            m = min(len(real), len(log))
             reqs = []
             n_nodes = d
             cut = None
@@ -417,7 +581,10 @@ def run(ctx, lean):
                     written = sum(1 for i_, e in enumerate(v.trees[k - 1].edges) for _ in e.neighbors)
                     if written < n_nodes * (n_nodes - 1):
                         ctx.count(f'{vt}: k-th tree tau has uninitialised cells')
-                picks = picks_for(vt, k, real[k], n_nodes)
+                try:
+                    picks = picks_for(vt, k, real[k], n_nodes)
+                except Exception:   # malformed tree (wrong node count / parents): reported below
+                    picks = None
                 if picks is not None:
                     try:
                         tie_stats(ctx, vt, k, tau, picks, n_nodes, v.trees[k - 1].edges if k > 0 else None)
@@ -438,7 +605,7 @@ def run(ctx, lean):
                 note(f'corr:train({vt})', {'mode': mode, 'd': d, 't': t, 'model': reply[:200],
                                            'real': [[(e['L'], e['R'], e['D'], e['parents']) for e in t_] for t_ in real]})
             else:
-                diff = compare_trees(model, real[:mm])
+                diff = compare_trees(model, real[:mm] if len(real) == len(log) else real)
                 if diff:
                     note(f'corr:train({vt})', {'mode': mode, 'd': d, 't': t, 'diff': diff})
             # (iii) checker on the real structure
@@ -616,11 +783,19 @@ def unit_corr(ctx, lean):
 
 
 # ----------------------------------------------------------------------------- oracle on the real object
-def oracle(vine, vt, d, t, tau_abs):
-    """The statement of C16 evaluated on a real fitted VineCopula.  -> list of (what, detail)."""
+def oracle(vine, vt, d, t, tau_ref, tau_first=None):
+    """The statement of C16 evaluated on a real fitted VineCopula.  `tau_ref` is the Kendall tau-b matrix
+    computed independently from the data (scipy.stats.kendalltau); `tau_first` the matrix the first Tree.fit
+    of the last fit received.  -> list of (what, detail)."""
     from copulas.bivariate.base import Bivariate
     out = []
     trees = vine.trees
+    tau_abs = np.abs(tau_ref)
+    if tau_first is not None:
+        df = tau_matrix_diff(tau_first, tau_ref)
+        if df:
+            out.append(('tau-matrix-not-kendall-tau-b', df))
+
     want = min(d - 1, t)
     if not (len(trees) == want and want >= 1):
         out.append(('tree-count', {'trees': len(trees), 'expected': want}))
@@ -732,22 +907,41 @@ def kruskal_max(w):
     return out
 
 
-def check_real(ctx, X, vt, t, counts):
+def check_real(ctx, X, vt, t, counts, history=()):
+    """Oracle on the state after the LAST fit of one object (fitted on `history` first, if any)."""
     d = X.shape[1]
-    tau_abs = np.abs(X.corr(method='kendall').to_numpy())
-    st, v, _ = real_fit(X, vt, t)
+    tau_ref = tau_b_matrix(X.to_numpy())
+    st, v, log = real_fit(X, vt, t, history)
     if st == 'skipped':
         return False
     counts['fits'] += 1
+    ep = 'VineCopula.fit' if not history else 'VineCopula.fit (second fit on the same object)'
+    pre = f'VineCopula.fit[{vt}]' if not history else f'VineCopula.refit[{vt}]'
+    inp = table_input(X, vt, t, history)
     if st == 'timeout':
         counts['failures'] += 1
-        ctx.fail_input('VineCopula.fit', table_input(X, vt, t), 'no result within the time limit (a fit takes < 1 s)',
-                       'fit terminates', 'VineCopula.fit:does-not-terminate')
+        ctx.fail_input(ep, inp, 'no result within the time limit (a fit takes < 1 s)',
+                       'fit terminates', 'VineCopula.fit:does-not-terminate' if not history
+                       else 'VineCopula.refit:does-not-terminate')
         return True
+    fresh = None
+    if history:
+        fst, fv, flog = real_fit(X, vt, t)
+        fresh = (fst, fv, flog)
     if st == 'exc':
         counts['refused'] += 1
+        if history and log == 'last' and fresh[0] == 'ok':
+            counts['failures'] += 1
+            ctx.fail_input(ep, inp, f'{type(v).__name__}: {str(v)[:120]}',
+                           'a second fit on the same object behaves like a fit on a fresh object',
+                           f'{pre}:raises-where-fresh-fit-succeeds')
+            return True
         return False
-    probs = oracle(v, vt, d, t, tau_abs)
+    probs = oracle(v, vt, d, t, tau_ref, log[0]['tau'] if log else None)
+    if history and fresh[0] == 'ok':
+        df = refit_vs_fresh(vt, extract(v), log, extract(fresh[1]), fresh[2])
+        if df:
+            probs.append(('differs-from-fresh-fit', {'first_difference': df}))
     counts['checked'] += 1
     seen = set()
     for what, detail in probs:
@@ -755,8 +949,9 @@ def check_real(ctx, X, vt, t, counts):
             continue
         seen.add(what)
         counts['failures'] += 1
-        ctx.fail_input('VineCopula.fit', table_input(X, vt, t), detail,
-                       'a regular vine of the requested type and depth (C16)', f'VineCopula.fit[{vt}]:{what}')
+        ctx.fail_input(ep, inp, detail,
+                       'a regular vine of the requested type and depth for the table of the last fit (C16)',
+                       f'{pre}:{what}')
     return bool(probs)
 
 
@@ -769,10 +964,17 @@ def search(ctx, deep):
         mode = rng.choices(MODES, MODE_W)[0]
         if it < (16 if deep else 4):    # exact-zero taus with column 0 first, d = 2..5
             d, mode = 2 + it % 4, 'zero'
+        nz = 16 if deep else 4
+        if nz <= it < nz + (12 if deep else 3):     # then heavily tied tables on which tau-a and tau-b MSTs differ
+            d, mode = 3 + it % 3, 'ties'
         X = gen_table(rng, d, mode)
         for vt in TYPES:
             for t in ([rng.randint(1, d)] if not deep else sorted({1, rng.randint(1, d), d - 1 if d > 2 else 1, d})):
                 check_real(ctx, X, vt, t, counts)
+            if it % 3 == 0 or deep:                 # the same object fitted on another table first
+                kind, hist = gen_history(rng, X, d)
+                counts['refits'] = counts.get('refits', 0) + 1
+                check_real(ctx, X, vt, rng.randint(1, d), counts, hist)
     ctx.support = dict(counts, deep=deep)
 
 
@@ -781,5 +983,7 @@ def replay(ctx, payload):
     X = pd.DataFrame(np.array(inp['rows'], dtype=float), columns=inp['columns'])
     counts = {'fits': 0, 'checked': 0, 'refused': 0, 'failures': 0}
     before = len(ctx.failing)
-    check_real(ctx, X, inp['vine_type'], inp['truncated'], counts)
+    hist = [(pd.DataFrame(np.array(h['rows'], dtype=float), columns=h['columns']), h['truncated'])
+            for h in inp.get('fitted_before_on_the_same_object', [])]
+    check_real(ctx, X, inp['vine_type'], inp['truncated'], counts, hist)
     return any(f['class'] == payload.get('class') for f in ctx.failing[before:])
